@@ -26,7 +26,7 @@ func (c17) ID() string { return "C17" }
 func (c17) Meta() Meta {
 	return Meta{
 		Level:       "exploration",
-		Rule:        "for each of the schema/lang types with a Copy method, a reflective filler populates EVERY field of every reachable struct (interfaces from registries of all implementations; maps and slices with non-nil elements, slices with spare capacity, and in about a third of the fillings one pointer stored under two keys / at two indexes of a container, as dependent bodies registered under several keys are), Copy() is called through reflection under recover(), the canonical dumps of original and copy must be equal (nil and empty containers are equal), no map / slice backing array / pointed-to schema struct of the copy may overlap the original's (constraints, addresses and cty values exempt), and adding/replacing entries in the copy's containers must leave the original's dump unchanged and vice versa. The field enumeration is exhaustive (all fields of all struct types reachable from the root types, listed in the evidence); fillings are seeded. distinct non-trivial = distinct (root type, field path) container/pointer positions that were checked for independence.",
+		Rule:        "for each of the schema/lang types with a Copy method, a reflective filler populates EVERY field of every reachable struct (interfaces from registries of all implementations; maps and slices with non-nil elements, slices with spare capacity, every seventh container empty but non-nil, and in about a third of the fillings one pointer stored under two keys / at two indexes of a container, as dependent bodies registered under several keys are), Copy() is called through reflection under recover(), the canonical dumps of original and copy must be equal (nil and empty containers are equal), no map / slice backing array / pointed-to schema struct of the copy may overlap the original's (constraints, addresses and cty values exempt), and adding/replacing entries in the copy's containers must leave the original's dump unchanged and vice versa. The field enumeration is exhaustive (all fields of all struct types reachable from the root types, listed in the evidence); fillings are seeded. distinct non-trivial = distinct (root type, field path) container/pointer positions that were checked for independence.",
 		Assumptions: []string{"slices and maps are filled with non-nil elements only (a nil *Targetable inside TargetableAs is not a schema value)", "constraints, schema.Address/lang.Address and cty types/values are immutable by convention and may be shared, as the property states"},
 		Floor:       map[string]int{"quick": 40, "thorough": 40},
 		CaseBudget:  60,
@@ -68,6 +68,7 @@ type filler struct {
 	unfilled map[string]bool
 	fields   map[string]bool // "Type.Field" of every struct field visited
 	aliased  int             // pointers deliberately stored twice in one container
+	empties  int             // containers left empty but non-nil
 }
 
 func (f *filler) id(p string) string { f.n++; return fmt.Sprintf("%s%d", p, f.n) }
@@ -129,7 +130,15 @@ func (f *filler) fill(v reflect.Value, depth int, path string) {
 		if depth <= 0 {
 			n = 1
 		}
-		s := reflect.MakeSlice(t, n, n+f.r.Intn(3))
+		if f.r.Intn(7) == 0 {
+			n = 0 // empty but allocated (spare capacity below), as NewBodySchema()-style constructors leave it
+			f.empties++
+		}
+		spare := f.r.Intn(3)
+		if n == 0 {
+			spare = 1 + f.r.Intn(2)
+		}
+		s := reflect.MakeSlice(t, n, n+spare)
 		for i := 0; i < n; i++ {
 			if i > 0 && t.Elem().Kind() == reflect.Ptr && f.r.Intn(4) == 0 {
 				s.Index(i).Set(s.Index(i - 1)) // the same pointer twice
@@ -144,6 +153,10 @@ func (f *filler) fill(v reflect.Value, depth int, path string) {
 		n := 1 + f.r.Intn(3)
 		if depth <= 0 {
 			n = 1
+		}
+		if f.r.Intn(7) == 0 {
+			n = 0 // empty, non-nil
+			f.empties++
 		}
 		var prevElem reflect.Value
 		for i := 0; i < n; i++ {
@@ -218,9 +231,9 @@ func (f *filler) shallow(v reflect.Value) {
 
 func c17Params(tier string) int {
 	if tier == "thorough" {
-		return 2000
+		return 20000
 	}
-	return 200
+	return 1500
 }
 
 func (p c17) NumUnits(tier string, seed int64) int { return len(c17Roots()) }
@@ -473,6 +486,7 @@ func (p c17) RunUnit(idx int, tier string, seed int64, focus map[string]string, 
 		rep.Distinct("unfillable", u)
 	}
 	rep.Count("pointers_stored_twice_in_a_container", int64(f.aliased))
+	rep.Count("empty_non_nil_containers", int64(f.empties))
 	rep.Distinct("root_types", name)
 }
 
